@@ -25,7 +25,8 @@
    bricks provide ELASTIC, SECANT and CONSISTENT (IsotropicMisesCreep-keywords.md, BehaviourBricks.md). *)
 EXTENDS BehaviourIntegration
 Requests == 1..4
-Provided(b, kt) == IF b.dsl = "Default" THEN TRUE
+Provided(b, kt) == IF b.dsl = "MultipleIsotropicMisesFlows" THEN FALSE   \* the generic interface answers "tangent operator is not implemented"
+                   ELSE IF b.dsl = "Default" THEN TRUE
                    ELSE IF b.dsl = "RungeKutta" THEN kt \in {1, 2, 3}
                    ELSE kt \in {1, 2, 4}
 DeclaredSymmetric(b) == b.dsl \in {"Default", "RungeKutta"}
@@ -53,7 +54,7 @@ Stiffness(el, h) ==
   IN  [k \in 1..(n * n) |-> A(((k - 1) \div n) + 1, ((k - 1) % n) + 1)]
 
 \* behaviours of a tier
-TOBehaviours(thorough) == {b \in Behaviours(thorough) : (b.dsl # "RungeKutta" \/ b.algo \in {"euler", "rk54"}) /\ (thorough \/ b.algo \notin QuasiNewtonAlgos)}
+TOBehaviours(thorough) == {b \in Behaviours(thorough) : b.dsl # "MultipleIsotropicMisesFlows" /\ (b.dsl # "RungeKutta" \/ b.algo \in {"euler", "rk54"}) /\ (thorough \/ b.algo \notin QuasiNewtonAlgos)}
 \* steps: the general ones and axis-aligned ones below, at and beyond the yield surface, from inside and from the surface
 TOAxisSteps(b, size) ==
   IF b.law = "plastic"
